@@ -74,6 +74,32 @@ def _functions(path):
     return out, src.splitlines()
 
 
+_baseline = None
+
+
+def source_digest(src_lines, lo, hi):
+    import hashlib
+    body = "\n".join(l.rstrip() for l in src_lines[lo - 1:hi])
+    return hashlib.sha1(body.encode()).hexdigest()
+
+
+def function_changed(rel, qual, src_lines, lo, hi):
+    """True when the source text of the function differs from the one recorded
+    in gtmon/reach_baseline.json (written by tools/make_reach_baseline.py from the
+    repository tree the REQUIRED lists were calibrated on).  Unknown -> False."""
+    global _baseline
+    if _baseline is None:
+        import json
+        try:
+            _baseline = json.load(open(os.path.join(os.path.dirname(__file__), "reach_baseline.json")))
+        except Exception:
+            _baseline = {}
+    want = _baseline.get("%s:%s" % (rel, qual))
+    if want is None:
+        return False
+    return source_digest(src_lines, lo, hi) != want
+
+
 def report(anchors, required=(), hits=None):
     """anchors: list of (relative file, qualname).  required: list of
     (relative file, qualname, source-text pattern).  Returns (dict for the
@@ -116,6 +142,15 @@ def report(anchors, required=(), hits=None):
                 "%s:%s:%s" % (rel, qual, pattern))
             continue
         if not any(ln in hits.get(path, set()) for ln in cands):
+            if function_changed(rel, qual, src, lo, hi):
+                # the function is not the one the required list was calibrated on
+                # (reach_baseline.json): a refactoring may legitimately route
+                # around the statement (benign change D-6: a closed form in
+                # Point.origin_to with the old route kept for other input).
+                # Starvation is still caught by the monitors' min_events.
+                rep.setdefault("required_unreached_in_changed_functions", []).append(
+                    "%s:%s:%s" % (rel, qual, pattern))
+                continue
             if not (hits.get(path, set()) & lines):
                 # the function itself was never entered: a refactoring may
                 # legitimately bypass a private helper; starvation is caught by
